@@ -50,28 +50,34 @@ def hookG (c : Ctx) (g gn : Nat) (d : Int) : Fin :=
   let un := nlimbs up                                                         -- :57 MPN_NORMALIZE (up, un)
   ⟨g, gn, if d1 then -(un : Int) else un, up, c.ok⟩                           -- :58-60
 
-/-- mpn_gcdext_hook with gp == NULL (gcdext_lehmer.c:62-126): u0 += q·u1, roles exchanged if d.
+/-- mpn_gcdext_hook with gp == NULL (gcdext_lehmer.c:62-126) after the MP_PTR_SWAP: t = the cofactor that
+    is updated (the C's local u0), s = the one multiplied (local u1); returns (new t, new un, ok).
     {qp, qn} comes from mpn_tdiv_qr (at most the top limb is zero), so after `qn -= (qp[qn-1] == 0)`
     qn = nlimbs q.  Stores: mpn_mul into ctx->tp (u1n + qn limbs of a ualloc-limb buffer), u0[un] = cy. -/
-def hookQS (ualloc : Nat) (c : Ctx) (qd : Nat × Bool) : Ctx :=
-  let q := qd.1
-  let t := if qd.2 then c.u1 else c.u0                            -- :70 MP_PTR_SWAP (u0, u1): the one updated
-  let s := if qd.2 then c.u0 else c.u1                            --     the one multiplied
-  let put (x un : Nat) (ok : Bool) : Ctx := if qd.2 then ⟨c.u0, x, un, ok⟩ else ⟨x, c.u1, un, ok⟩
+def updQ (ualloc t s un : Nat) (ok : Bool) (q : Nat) : Nat × Nat × Bool :=
   if nlimbs q = 1 then                                            -- :73, :76
     let x := t + q * s                                            -- :80-84 cy = mpn_add_n / mpn_addmul_1 (un limbs)
-    put x (if x / B ^ c.un ≠ 0 then c.un + 1 else c.un)           -- :124-125 u0[un] = cy; ctx->un = un + (cy > 0)
-        (c.ok && decide (c.un < ualloc))
+    (x, if x / B ^ un ≠ 0 then un + 1 else un,                    -- :124-125 u0[un] = cy; ctx->un = un + (cy > 0)
+        ok && decide (un < ualloc))
   else
     let u1n := nlimbs s                                           -- :91-92 MPN_NORMALIZE (u1, u1n)
-    if u1n = 0 then c                                             -- :94-95 return
+    if u1n = 0 then (t, un, ok)                                   -- :94-95 return
     else
       let tp := q * s                                             -- :106-109 mpn_mul (tp, ...): u1n + qn limbs
       let tn := nlimbs tp                                         -- :111-112 u1n += qn; u1n -= tp[u1n-1] == 0
-      let un := if tn ≥ c.un then tn else c.un                    -- :114-121 cy = mpn_add (u0, ...)
+      let un' := if tn ≥ un then tn else un                       -- :114-121 cy = mpn_add (u0, ...)
       let x := t + tp
-      put x (if x / B ^ un ≠ 0 then un + 1 else un)               -- :124-125
-        (c.ok && decide (u1n + nlimbs q ≤ ualloc) && decide (un < ualloc))
+      (x, if x / B ^ un' ≠ 0 then un' + 1 else un',               -- :124-125
+        ok && decide (u1n + nlimbs q ≤ ualloc) && decide (un' < ualloc))
+
+/-- mpn_gcdext_hook with gp == NULL: u0 += q·u1, roles exchanged if d (:70 MP_PTR_SWAP (u0, u1)). -/
+def hookQS (ualloc : Nat) (c : Ctx) (qd : Nat × Bool) : Ctx :=
+  if qd.2 then
+    let r := updQ ualloc c.u1 c.u0 c.un c.ok qd.1
+    ⟨c.u0, r.1, r.2.1, r.2.2⟩
+  else
+    let r := updQ ualloc c.u0 c.u1 c.un c.ok qd.1
+    ⟨r.1, c.u1, r.2.1, r.2.2⟩
 
 /-- the `while (n >= 2)` loop of mpn_gcdext_lehmer_n (gcdext_lehmer.c:175-238); `inr` = returned from
     inside (`return ctx.gn`), `inl` = fell out with n = 1. -/
